@@ -214,6 +214,8 @@ pub struct FaultCfg {
     pub disk_w: u32,
     /// the timeout (ns) that scales bigdelay / stall lengths
     pub scale_ns: Ns,
+    /// never apply a fate to RRQ/WRQ datagrams (duplicate requests are C13's subject)
+    pub spare_requests: bool,
 }
 
 impl Default for FaultCfg {
@@ -230,6 +232,7 @@ impl Default for FaultCfg {
             late_w: [1, 0, 0],
             disk_w: 0,
             scale_ns: 5 * SEC,
+            spare_requests: false,
         }
     }
 }
@@ -357,6 +360,8 @@ pub struct Inner {
     pub harness_error: Option<String>,
     /// sandbox root, replaced by "$SB" in traces so that they do not depend on the pid
     pub sb_root: String,
+    /// C15: faults only while the DATA count is within this margin of a multiple of 65536
+    pub wrap_gate: Option<u64>,
 }
 
 pub struct World {
@@ -420,7 +425,17 @@ impl Inner {
     }
 
     fn faults_allowed(&self) -> bool {
-        self.budget_left > 0 && (!self.cfg.after_first_data || self.data_phase)
+        if self.budget_left == 0 || (self.cfg.after_first_data && !self.data_phase) {
+            return false;
+        }
+        match self.wrap_gate {
+            None => true,
+            Some(m) => {
+                let n = self.stats.data_blocks;
+                let x = n % 65536;
+                n + m >= 65536 && (x + m >= 65536 || x <= m)
+            }
+        }
     }
 
     fn lateness(&mut self) -> Ns {
@@ -568,7 +583,8 @@ impl Inner {
             Actor::Peer(_) => self.cfg.on_peer_sends,
         };
         let mut fate = Fate::Deliver;
-        if applies && self.faults_allowed() {
+        let is_request = data.len() >= 2 && data[0] == 0 && (data[1] == 1 || data[1] == 2);
+        if applies && self.faults_allowed() && !(self.cfg.spare_requests && is_request) {
             let w = self.cfg.fate_w;
             fate = [Fate::Deliver, Fate::Drop, Fate::Dup, Fate::Delay, Fate::BigDelay, Fate::Late][self.choices.choose("net.fate", &w)];
         }
@@ -844,6 +860,7 @@ impl World {
                 icmp: false,
                 harness_error: None,
                 sb_root: String::new(),
+                wrap_gate: None,
             }),
             driver_cv: Condvar::new(),
         })
